@@ -19,6 +19,7 @@ import (
 	"fmt"
 	"os"
 	"path"
+	"path/filepath"
 	"sort"
 	"strconv"
 	"strings"
@@ -27,6 +28,7 @@ import (
 	"github.com/google/gce-tcb-verifier/keys"
 	cpb "github.com/google/gce-tcb-verifier/proto/certificates"
 	"github.com/google/gce-tcb-verifier/sign/gcsca"
+	"github.com/google/gce-tcb-verifier/storage/local"
 	"github.com/google/gce-tcb-verifier/testing/nonprod/localca"
 	"google.golang.org/protobuf/encoding/prototext"
 	_ "pgregory.net/rapid" // the driver passes -rapid.seed to every check binary
@@ -50,12 +52,16 @@ type opSpec struct {
 }
 
 type history struct {
-	Name     string   `json:"name"`
-	KM       string   `json:"km"`
-	Store    string   `json:"store"`
-	CertDir  string   `json:"cert_dir"`
-	RootPath string   `json:"root_path"`
-	Ops      []opSpec `json:"ops"`
+	Name     string `json:"name"`
+	KM       string `json:"km"`
+	Store    string `json:"store"`
+	CertDir  string `json:"cert_dir"`
+	RootPath string `json:"root_path"`
+	// RootKey/SigningKey (long histories only): the key manager's configured names of the root key
+	// and of the first signing key (memkm.T.RootKeyName / PrimarySigningKeyName); empty = defaults.
+	RootKey    string   `json:"root_key,omitempty"`
+	SigningKey string   `json:"signing_key,omitempty"`
+	Ops        []opSpec `json:"ops"`
 	// Faults: which fault kinds the fault sub-check injects into this history: 0 = the failing Close
 	// that leaves no object; 1 = also the failing Close after the object was committed; 2 = every
 	// kind.
@@ -76,7 +82,22 @@ func (h *history) String() string {
 	for _, o := range h.Ops {
 		ops = append(ops, o.Tag)
 	}
-	return fmt.Sprintf("%s store=%s cert_dir=%q root=%q [%s]", h.KM, h.Store, h.CertDir, h.RootPath, strings.Join(ops, "; "))
+	if len(ops) > 12 {
+		ops = append(append(append([]string(nil), ops[:4]...), fmt.Sprintf("... %d more ...", len(ops)-8)), ops[len(ops)-4:]...)
+	}
+	keys := ""
+	if h.RootKey != "" || h.SigningKey != "" {
+		keys = fmt.Sprintf(" root_key=%q signing_key=%q", abbr(h.RootKey), abbr(h.SigningKey))
+	}
+	return fmt.Sprintf("%s store=%s cert_dir=%q root=%q%s [%s]", h.KM, h.Store, abbr(h.CertDir), abbr(h.RootPath), keys, strings.Join(ops, "; "))
+}
+
+// abbr shortens the long names of the long-history sub-check in messages and evidence.
+func abbr(s string) string {
+	if len(s) <= 80 {
+		return s
+	}
+	return fmt.Sprintf("%s...%s(%d bytes)", s[:24], s[len(s)-24:], len(s))
 }
 
 func runOp(ctx context.Context, o opSpec) error {
@@ -220,13 +241,13 @@ func judgeStoreFresh(h *history, objects map[string][]byte) (*verdict, stateInfo
 				raw, ok = objects[path.Clean(e.GetObjectPath())]
 			}
 			if !ok {
-				return bad("C11/manifest-entry-without-object", "manifest lists key version %q -> object %q, which is not in the bucket", e.GetKeyVersionName(), e.GetObjectPath())
+				return bad("C11/manifest-entry-without-object", "manifest lists key version %q -> object %q, which is not in the bucket", abbr(e.GetKeyVersionName()), abbr(e.GetObjectPath()))
 			}
 			if _, err := x509.ParseCertificate(raw); err != nil {
-				return bad("C11/manifest-entry-unparseable", "object %q of key version %q does not parse as a certificate: %v", e.GetObjectPath(), e.GetKeyVersionName(), err)
+				return bad("C11/manifest-entry-unparseable", "object %q of key version %q does not parse as a certificate: %v", abbr(e.GetObjectPath()), abbr(e.GetKeyVersionName()), err)
 			}
 			if _, err := ca.Certificate(ctx, e.GetKeyVersionName()); err != nil {
-				return bad("C11/manifest-entry-unresolvable", "authority cannot produce the certificate of listed key version %q: %v", e.GetKeyVersionName(), err)
+				return bad("C11/manifest-entry-unresolvable", "authority cannot produce the certificate of listed key version %q: %v", abbr(e.GetKeyVersionName()), err)
 			}
 		}
 		info.primaryPath = info.listed[primary]
@@ -238,15 +259,15 @@ func judgeStoreFresh(h *history, objects map[string][]byte) (*verdict, stateInfo
 	// (c) the primary signing key's certificate verifies under the stored root certificate
 	der, err := ca.Certificate(ctx, primary)
 	if err != nil {
-		return bad("C11/primary-without-certificate", "primary signing key %q is recorded but has no certificate: %v", primary, err)
+		return bad("C11/primary-without-certificate", "primary signing key %q is recorded but has no certificate: %v", abbr(primary), err)
 	}
 	cert, err := x509.ParseCertificate(der)
 	if err != nil {
-		return bad("C11/primary-without-certificate", "certificate of primary signing key %q does not parse: %v", primary, err)
+		return bad("C11/primary-without-certificate", "certificate of primary signing key %q does not parse: %v", abbr(primary), err)
 	}
 	bundle, err := ca.CABundle(ctx, primary)
 	if err != nil {
-		return bad("C11/primary-without-root", "primary signing key %q is recorded but the root certificate cannot be read: %v", primary, err)
+		return bad("C11/primary-without-root", "primary signing key %q is recorded but the root certificate cannot be read: %v", abbr(primary), err)
 	}
 	blk, _ := pem.Decode(bundle)
 	if blk == nil {
@@ -257,7 +278,7 @@ func judgeStoreFresh(h *history, objects map[string][]byte) (*verdict, stateInfo
 		return bad("C11/primary-without-root", "stored root certificate does not parse: %v", err)
 	}
 	if err := root.CheckSignature(cert.SignatureAlgorithm, cert.RawTBSCertificate, cert.Signature); err != nil {
-		return bad("C11/primary-certificate-not-under-root", "certificate of primary signing key %q does not verify under the stored root certificate: %v", primary, err)
+		return bad("C11/primary-certificate-not-under-root", "certificate of primary signing key %q does not verify under the stored root certificate: %v", abbr(primary), err)
 	}
 
 	// (d) the repository's own start-up self check accepts the store: the real localca.T.InitContext
@@ -274,6 +295,15 @@ func judgeStoreFresh(h *history, objects map[string][]byte) (*verdict, stateInfo
 		defer lw.Close()
 	}
 	direct := &gcsca.CertificateAuthority{RootPath: ca.RootPath, PrivateBucket: ca.PrivateBucket, SigningCertDirInGCS: ca.SigningCertDirInGCS, Storage: lw.Store.Base}
+	if parent := path.Dir(path.Clean(h.CertDir)); parent != "." && parent != "/" {
+		// localca creates <bucket_root>/<cert_dir> with a plain Mkdir: for a nested cert_dir (long
+		// histories only) its parent directories are part of the environment the operator provides
+		if sc, ok := lw.Store.Base.(*local.StorageClient); ok {
+			if err := os.MkdirAll(filepath.Join(sc.Root, filepath.FromSlash(parent)), 0o755); err != nil {
+				panic("harness: " + err.Error())
+			}
+		}
+	}
 	lctx := lw.Context(false)
 	kc, _ := keys.FromContext(lctx)
 	kc.CA = nil
@@ -296,7 +326,7 @@ func kindOf(h *history, object string) string {
 func logString(h *history, ws []rotsim.Write) string {
 	var s []string
 	for _, w := range ws {
-		s = append(s, kindOf(h, w.Object)+":"+w.Object)
+		s = append(s, kindOf(h, w.Object)+":"+abbr(w.Object))
 	}
 	return "[" + strings.Join(s, ", ") + "]"
 }
